@@ -49,7 +49,9 @@ WORDS = ("the a this that model value result table figure section note reader sy
          "caf\u00e9 na\u00efve \u00fcber r\u00e9sum\u00e9").split()
 NAMES = ["x", "y", "z", "w", "k", "p", "q", "r", "s", "t", "u", "v", "width", "height", "total", "count",
          "rate", "gain", "speed", "offset", "limit", "scale", "ratio", "mass"]
-FENCE_NAMES = ["alpha", "beta", "gamma"]
+# names of every shape: some consist only of letters of the language tag ("mech"), some become equal when a
+# prefix of such letters is dropped, some differ only in case or length
+FENCE_NAMES = ["alpha", "beta", "gamma", "c", "me", "cat", "at", "e1", "mx", "x1", "cache", "ache", "m", "data", "hem", "Alpha", "a"]
 
 
 # --------------------------------------------------------------------------------------------------
